@@ -1155,6 +1155,11 @@ func (s *Store[K, V]) Recover(version uint64, reader io.Reader) error {
 			// the next tick reads trust a clock that is behind by the whole uptime of
 			// the saved cache and serve restored entries past their deadline
 			s.timerwheel.clock.RefreshNowCache()
+			// a receiving cache that has been up for longer than the saved one did:
+			// the adopted clock now reads less than the wheel's position
+			if now := s.timerwheel.clock.NowNano(); now < s.timerwheel.nanos {
+				s.timerwheel.rewind(now)
+			}
 			s.policy.sketch.EnsureCapacity(uint(m.Total))
 			if m.Capacity == s.policy.capacity && m.WindowCap >= 1 && m.WindowCap < m.Capacity {
 				// same size: the regions were filled under the adaptive split saved
